@@ -639,8 +639,8 @@ func (st *State) frameCheckEntry(ins ssa.Instruction, en modEntry, name string) 
 		return
 	}
 	if en.kind == "ghost" {
-		if g := st.eng.cs.Ghosts[strings.TrimPrefix(en.name, "ghost_")]; g != nil && g.Probe {
-			return // probes are forgotten at every call anyway
+		if g := st.eng.cs.Ghosts[strings.TrimPrefix(en.name, "ghost_")]; g != nil && (g.Probe || g.Trace) {
+			return // probes are forgotten at every call anyway; traces are exempt by declaration
 		}
 	}
 	for _, ms := range st.modsets {
